@@ -187,6 +187,15 @@ def parse_type(p):
 def parse_fp(tok, ty):
     if tok.startswith('0x'):
         h = tok[2:]
+        if h[0] == 'K' and len(h) == 21:
+            # x86 80-bit extended: sign(1) exponent(15) significand(64, explicit integer bit)
+            v = int(h[1:], 16); sg = -1.0 if v >> 79 else 1.0; e = (v >> 64) & 0x7fff; m = v & ((1 << 64) - 1)
+            if e == 0x7fff: return sg * float('inf') if m << 1 & ((1 << 64) - 1) == 0 else float('nan')
+            if m == 0: return sg * 0.0
+            from fractions import Fraction
+            fr = Fraction(m, 1 << 63) * (Fraction(2) ** (e - 16383) if e else Fraction(2) ** (-16382))
+            try: return sg * float(fr)
+            except OverflowError: return sg * float('inf')
         if h[0] in 'KLMHR': return float('nan')
         return struct.unpack('>d', bytes.fromhex(h.rjust(16, '0')))[0]
     return float(tok)
